@@ -58,6 +58,7 @@ POOL = [
     ("frac_into_int", {"i": 2.75}),
     ("integral_float_into_long", {"v": 4.0}),
     ("nan_double", {"x": float("nan")}),
+    ("double_integral", {"x": 3.0}),
     ("inf_double", {"x": float("inf")}),
     ("neg_zero", {"x": -0.0}),
     ("float32_overflow", {"f": 1e40}),
@@ -165,6 +166,10 @@ def gen(rng: random.Random, tier: str, idx: int) -> dict:
                           "fresh": rng.random() < 0.5, "n": rng.randint(1, 2)})
         else:
             classes = [rng.randrange(len(POOL)) for _ in range(rng.randint(1, 3))]
+            if rng.random() < 0.08:
+                # one file holding a single distinct finite value plus NaN: bounds min == max
+                names = [c[0] for c in POOL]
+                classes = [names.index(rng.choice(["double_integral", "plain"])), names.index("nan_double")]
             if rng.random() < 0.5:
                 classes = [0] + [c for c in classes if POOL[c][0] in ("plain", "nulls", "absent", "unicode", "int_min",
                                                                        "int_max", "nan_double", "int_into_double")]
@@ -591,7 +596,7 @@ def execute(plan: dict, scratch: str, replay: Optional[dict] = None) -> dict:
                     return
             for col, op, val in (("v", ">=", 0), ("tag", "==", rows[0]["tag"] if st["kind"] == "records" and isinstance(rows[0].get("tag"), str) else "zz"),
                                  ("x", "is_not_null", True), ("i", ">=", -5), ("f", "is_not_null", True),
-                                 ("x", "!=", 1.5), ("f", "in", [0.1, 0.5]), ("f", ">", 0.1), ("f", "<", 0.5000001)):
+                                 ("x", "!=", 1.5), ("x", "!=", 3), ("f", "in", [0.1, 0.5]), ("f", ">", 0.1), ("f", "<", 0.5000001)):
                 flt = {col: val} if op == "==" else {col: (op, val)}
                 try:
                     got = sorted((ir.row_key(r) for r in t.scan(filter=flt)), key=repr)
